@@ -930,11 +930,18 @@ def constructors(check, prog):
     ok = False
     for o in res.raises:
         txt = ' '.join(show(t) for t, pol in o.cond)
-        if 'len(center) != 3' in txt and 'numpy.isscalar(center)' in txt and \
+        # anything whose shape is not (3,): a scalar, a pair, and also a column, a
+        # 3 x 3 array or three one-element arrays -- they have length 3, and
+        # `points - centre` then broadcasts row-wise (three interior points
+        # reported outside) and a translation becomes a matrix
+        if any(t[0] == 'cmp' and t[1] in ('!=', '==') and pol == (t[1] == '!=') and
+               ('tuple', (num(3),)) in (t[2], t[3]) and
+               any(x == ('call', 'numpy.shape', (sym('center'),), ())
+                   for x in subterms(t)) for t, pol in o.cond) and \
                 'center is not None' in txt:
             ok = True
     check.require(ok, 'K5-rejections', 'CenteredScatterer.__init__ center',
-                  'a centre that is a scalar or not of length 3 raises InvalidScatterer',
+                  'a centre whose shape is not (3,) raises InvalidScatterer',
                   prog.loc(q, prog.func(q)))
 
 
@@ -1206,8 +1213,10 @@ def sphere_like_constructors(check, prog):
                     f = lt_form(x) if x[0] == 'cmp' else None
                     if f and f[0] == '<' and ((f[2] == num(0)) or (f[1] == num(0))):
                         neg = True
-                    if x[0] == 'cmp' and x[1] in ('!=', '==') and num(3) in (x[2], x[3]) \
-                            and any(y[0] == 'call' and y[1] == 'len' for y in (x[2], x[3])):
+                    if x[0] == 'cmp' and x[1] in ('!=', '==') and \
+                            ('tuple', (num(3),)) in (x[2], x[3]) and any(
+                                y[0] == 'call' and y[1] == 'numpy.shape'
+                                for y in subterms(x)):
                         centre = True
         short = C.rpartition('.')[2]
         check.require(neg, 'K5-rejections', '%s.__init__ negative size' % short,
@@ -1217,6 +1226,8 @@ def sphere_like_constructors(check, prog):
                       'radius' % short)
         check.require(centre, 'K5-rejections', '%s.__init__ centre' % short,
                       'a centre that is not three numbers raises InvalidScatterer', loc,
-                      fail_detail='%s(...) stores any centre: center=(0, 0) or center=3 is '
-                      'accepted' % short)
+                      fail_detail='%s(...) does not ask for the shape (3,): a centre of '
+                      'length 3 that is not three numbers -- a (3, 1) column, a 3 x 3 '
+                      'array -- is accepted (or center=(0, 0) / center=3, if nothing is '
+                      'asked at all)' % short)
     check.floor('sphere-like constructors checked', n, 3)
